@@ -720,6 +720,9 @@ func (tic *TermInCommittee) validateViewChangeVotes(targetBlockHeight primitives
 			return fmt.Errorf("confirmation of memberId %s has block height %d which is different than targetBlockHeight %d ",
 				senderMemberIdStr, confirmationBlockHeight, targetBlockHeight)
 		}
+		if confirmation.SignedHeader().MessageType() != protocol.LEAN_HELIX_VIEW_CHANGE {
+			return fmt.Errorf("confirmation of memberId %s is a signed %s header, not a VIEW_CHANGE", senderMemberIdStr, confirmation.SignedHeader().MessageType())
+		}
 		if confirmation.SignedHeader().InstanceId() != tic.instanceId {
 			return fmt.Errorf("confirmation of memberId %s has instanceId %s which is different than my instanceId %s",
 				senderMemberIdStr, confirmation.SignedHeader().InstanceId(), tic.instanceId)
